@@ -134,6 +134,55 @@ def desugar_enumerate(x, fail, fname):
         return tuple(walk(y) if isinstance(y, (tuple, list)) else y for y in x)
     return block(x)
 
+
+# ---- phase 4k: FLOAT ERASURE (table key `pre_text` = float_erase([...])): the f64 pipeline of a routine is replaced, statement by statement, by
+# its table-declared reading BEFORE parsing.  Each entry (pattern, count, replacement) is a whole statement (tokens, `$x` = one identifier; a
+# wildcard keeps its binding across entries); it must match exactly `count` times at statement starts, else the extraction fails.  A float
+# statement that was changed no longer matches, stays in the text and is refused by the parser / lowering (f64 is outside the subset): nothing
+# about the floats is guessed, the reading is pinned to the exact statements.
+def float_erase(entries):
+    import re
+    def run(text, fname):
+        from rs2lean import tokenize, Unsupported
+        norm = " ".join(t[1] for t in tokenize(text)[:-1])
+        bound = {}
+        for (pat, count, rep) in entries:
+            ptoks = [t[1] for t in tokenize(re.sub(r"\$(\w+)", r"WILD__\1", pat))[:-1]]
+            seen = set(); parts = []
+            for t in ptoks:
+                m = re.fullmatch(r"WILD__(\w+)", t)
+                if m:
+                    n = m.group(1)
+                    if n in bound: parts.append(re.escape(bound[n]))
+                    elif n in seen: parts.append("(?P=%s)" % n)
+                    else: seen.add(n); parts.append("(?P<%s>[A-Za-z_][A-Za-z0-9_]*)" % n)
+                else: parts.append(re.escape(t))
+            rx = re.compile(r"(?<=[{};] )" + " ".join(parts))
+            ms = list(rx.finditer(norm))
+            if len(ms) != count:
+                raise Unsupported(f"fn {fname}: float erasure: statement `{pat}` found {len(ms)} times (the table expects {count})")
+            for m in ms:
+                for n, v in m.groupdict().items():
+                    if bound.setdefault(n, v) != v: raise Unsupported(f"fn {fname}: float erasure: `${n}` is bound to both `{bound[n]}` and `{v}`")
+            def sub(m):
+                r = rep
+                for n, v in bound.items(): r = re.sub(r"\$" + n + r"\b", v, r)
+                if "$" in r: raise Unsupported(f"fn {fname}: float erasure: unbound wildcard in the replacement `{rep}`")
+                return " ".join(t[1] for t in tokenize(r)[:-1])
+            norm = re.sub(r" +", " ", rx.sub(sub, norm))
+        return norm
+    return run
+
+EXACT_CONVEY_FLOATS = float_erase([
+    ("let mut $v = vec![0f64; $c * $k];", 1, ""),
+    ("let $d = $m.value() as f64;", 1, ""),
+    ("let $e = $t[$j * $k + $i] as f64;", 2, ""),
+    ("$v[$j * $k + $i] = $e / $d;", 2, ""),
+    # the rounded sum of the quotients of ONE coefficient is a function of its scaled residues `temp[i*k .. (i+1)*k]` (and of the moduli, fixed per converter)
+    ("let $s: f64 = $v[($a * $k)..(($a + 1) * $k)].iter().sum();", 1, "let $s = round_q(&$t[($a * $k)..(($a + 1) * $k)]);"),
+    ("$r[$a] = $s.round() as u64;", 1, "$r[$a] = $s;"),
+])
+
 TG = "self.base_t_gamma.as_ref().unwrap()"
 TABLE_RNS_4K = [
     {"file": UR, "fn": "decrypt_scale_and_round", "impl": "RNSTool", "model": "RNSTool.decryptScaleAndRound", "nested_loops": True,
@@ -162,4 +211,14 @@ TABLE_RNS_4K = [
      "abstract": [("self.base.len()", "size", "Nat"), ("self.base[#]", "base", "List Modulus")]},
     {"file": UR, "fn": "decompose_array", "impl": "RNSBase", "lean": "rnsbase_decompose_array", "model": "(RNSBase.decompose on every column)", "nested_loops": True,
      "enum_iters": True, "abstract": [("self.base.len()", "size", "Nat"), ("self.base[#]", "base", "List Modulus")]},
+    {"file": UR, "fn": "exact_convey_array", "impl": "BaseConverter", "model": "BaseConverter.exactConvey (column by column)", "nested_loops": True,
+     "pre_text": EXACT_CONVEY_FLOATS,
+     "abstract": [("self.ibase.len()", "ibaseSize", "Nat"), ("self.obase.len()", "obaseSize", "Nat"),
+                  ("self.ibase.inv_punctured_prod_mod_base()[#]", "invPunct", "List MulOperand"),
+                  ("self.ibase.base_at(#)", "ibase", "List Modulus"), ("self.obase.base_at(#)", "obase", "List Modulus"),
+                  ("self.ibase.base_prod()", "ibaseProd", "List Nat"),
+                  ("self.base_change_matrix[#]", "matrix", "List (List Nat)")],
+     "extern": [{"fcall": "round_q", "binder": "roundQ"}]},
+    {"file": UR, "fn": "decrypt_mod_t", "impl": "RNSTool", "model": "RNSTool.decryptModT",
+     "extern": [{"rcall": "self.base_q_to_t_conv.as_ref().unwrap().exact_convey_array", "binder": "qToTF"}]},
 ]
